@@ -13,3 +13,7 @@ CHECKS["C12"] = dict(
     text="Typed comparison rules: Searches.search_matches is executed symbolically for every integer value in [-99,99] against a pool of term spellings for the 8 non-regex operators and compared with a reference model transcribed from the documented rules; short symbolic text values against concrete terms; boolean spellings, regex and containment on finite pools enumerated through the solver; inversion through the real Processor on lists/AoH with 3 symbolic leaves (plain and inverted results partition the candidates in document order); never-raises over pool x pool.",
     note="Text values are short (<=2 letters quick, <=3 thorough) because str.lower()/title() are modelled over the whole Unicode table; regex/containment/floats only from pools (engine limits). Undocumented typing corners are excluded from the functional claim and listed in evidence.outside_claim.")
 del NA["C12"]
+CHECKS["C13"] = dict(
+    text="Keyword semantics: [max()], [min()], [unique()], [distinct()], [has_child()], [parent(n)], [name()] are evaluated through the real Processor on lists (n<=4, optional null), Arrays-of-Hashes and hashes-of-hashes whose members have/lack the attribute (all presence patterns), with symbolic integer leaves, and compared as multisets of positions with a definitional model (extreme value incl. ties, occurrence counts, first-of-group, key presence, n-th ancestor identity, refusal above the root).",
+    note="Leaves in [-9,9] for max/min (all orderings/ties of <=4 members realisable), [-1,1] for unique/distinct because the implementation hashes them; text/float members and null attribute values are outside.")
+del NA["C13"]
